@@ -3,7 +3,7 @@ REGISTRY = {
     'C01': ['base_core', 'handles', 'connect'],
     'C06': ['base_core', 'handles', 'connect'],
     'C02': ['core'],
-    'C03': ['base_core', 'handles', 'core', 'event', 'strand', 'when'],
+    'C03': ['base_core', 'handles', 'core', 'event', 'strand', 'when', 'intrusive_ptr', 'connect'],
     'C04': ['base_core', 'strand', 'event', 'coro_mutex'],
     'C05': ['thread_pool', 'strand', 'core', 'handles'],
     'C07': ['strand'],
